@@ -12,6 +12,10 @@ decisions, victims and released costs are oracle parameters of the labels) and e
 
 `s.hist` is the ghost concurrent history: `inv`/`ret` events bracket each call, the other events are
 linearization points appended by the critical section in which the call takes effect.
+
+Programs may MIX calls on the sync handle (`Cache`) and on the async handle (`AsyncCache`): the environment
+label `call op async` chooses the handle per call, and every theorem below quantifies over such mixed
+programs (see `Fv.Props.CacheConcAsync` for what differs between the two handles).
 -/
 namespace Fv.Props.CacheConc
 open Fv.Cache.Conc
